@@ -30,7 +30,14 @@ type Monitors struct {
 	Disabled map[string]bool
 	// faulted: the current run injects faults (rules that assume successful calls are relaxed)
 	Faulted bool
+	// RemapSafetyTo: report violations of the safety properties (C01, C03, C04, C05, C12 and
+	// no-panic) under this property as well (C11)
+	RemapSafetyTo string
+	// Mute drops everything (baseline recording runs)
+	Mute bool
 }
+
+var safetyProps = map[string]bool{"C01": true, "C03": true, "C04": true, "C05": true, "C12": true}
 
 // NewMonitors builds the monitor set.
 func NewMonitors(w *World) *Monitors {
@@ -38,8 +45,15 @@ func NewMonitors(w *World) *Monitors {
 }
 
 func (m *Monitors) viol(prop, rule string, attrs map[string]string, inv *simapi.Invocation, detail map[string]any) {
-	if m.Disabled[rule] || m.Disabled[prop] {
+	if m.Mute || m.Disabled[rule] || m.Disabled[prop] {
 		return
+	}
+	if m.RemapSafetyTo != "" && (safetyProps[prop] || strings.HasSuffix(rule, ".no-panic")) && prop != m.RemapSafetyTo {
+		a2 := map[string]string{"rule": rule}
+		for k, v := range attrs {
+			a2[k] = v
+		}
+		defer m.viol(m.RemapSafetyTo, m.RemapSafetyTo+".safety", a2, inv, map[string]any{"original": rule})
 	}
 	if attrs == nil {
 		attrs = map[string]string{}
@@ -193,7 +207,7 @@ func (m *Monitors) OnInvocation(out kit.Outcome) {
 		}
 	}
 	if out.Panic != "" {
-		m.viol("C16", "C16.reconcile-panic", map[string]string{"controller": inv.Controller, "panic": firstLine(out.Panic)}, inv, nil)
+		m.viol("C16", "C16.reconcile-panic", map[string]string{"controller": inv.Controller, "panic": firstLine(out.Panic), "at": out.PanicAt}, inv, nil)
 		m.viol(m.w.Ctx.Property, m.w.Ctx.Property+".no-panic", map[string]string{"controller": inv.Controller, "panic": firstLine(out.Panic)}, inv, nil)
 		return
 	}
@@ -964,6 +978,12 @@ func (m *Monitors) rollbackCheck(inv *simapi.Invocation, out kit.Outcome, v *eds
 		return
 	}
 	ctx := m.w.Ctx
+	if v.EDS.Annotations[v1.ExtendedDaemonSetCanaryValidAnnotationKey] == upToDate.Name {
+		// explicitly validated *and* failed: C05 allows the promotion, C07 asks for the rollback;
+		// the statements leave this corner open (either)
+		ctx.Count("C07.failed-and-validated-either")
+		return
+	}
 	ctx.Count("C07.failed-canary-reconciles")
 	if out.Err != nil || invFaulted(inv) {
 		return // judged again at the next failure-free reconcile / by C07.recoverable
